@@ -24,7 +24,8 @@ import ast
 
 import z3
 
-from pyvc.contracts import FnContract, Raises
+from pyvc.contracts import FnContract, LoopSpec, Raises
+from pyvc.ops import Unsupported
 from pyvc.values import NONE, VBool, VExt, VInt, VNoneT, VRef, VSeq, VStr, VTuple, VUnk, ext_sort, fresh_name
 from pyvc.verify import Maker
 
@@ -60,6 +61,29 @@ MIME_PARSES = z3.Function("mime_parser_accepts", BytesS, z3.BoolSort())  # ... r
 MIME_HAS = z3.Function("mime_has_html_part", MimeS, z3.BoolSort())       # _find_html_part(msg) returns a part (not None, no exception)
 MIMEPART = z3.Function("mime_html_part", MimeS, BytesS)                  # that part, decoded
 NONEMPTY = z3.Function("bytes_nonempty", BytesS, z3.BoolSort())          # truth value of a byte string
+# round 7: the MIME view below `_find_html_part` / `_decode_content` (email.message.Message, ASSUMED: functions of the message object)
+CT = z3.Function("mime_content_type", MimeS, S)                          # msg.get_content_type()
+MULTI = z3.Function("mime_is_multipart", MimeS, z3.BoolSort())           # msg.is_multipart()
+NPARTS = z3.Function("mime_walk_len", MimeS, z3.IntSort())               # len(list(msg.walk()))
+PART = z3.Function("mime_walk_at", MimeS, z3.IntSort(), MimeS)           # list(msg.walk())[i]
+DEC = z3.Function("mime_decoded_content", MimeS, BytesS)                 # _decode_content(part) at its call sites (verified below)
+PKIND = z3.Function("mime_payload_kind", MimeS, z3.IntSort())            # get_payload(decode=False): 0 bytes, 1 str, else neither
+PBYTES = z3.Function("mime_payload_bytes", MimeS, BytesS)
+PSTR = z3.Function("mime_payload_str", MimeS, S)
+HDR = z3.Function("mime_header_or_empty", MimeS, S, S)                   # part.get(name, "")
+HeaderS = ext_sort("HeaderObj")
+HOBJ = z3.Function("mime_header_object", MimeS, S, HeaderS)               # the Header object `get` returns instead
+HTEXT = z3.Function("header_object_as_str", HeaderS, S)                   # str(<Header object>)
+DEC_RAISES = z3.Function("mime_decode_content_raises", MimeS, z3.BoolSort())   # _decode_content(part) raises (its own `raises` obligation says: never)
+HDR_IS_STR = z3.Function("mime_header_is_str", MimeS, S, z3.BoolSort())  # ... is a str (ASCII-only value or absent), not a Header object
+ENC = z3.Function("str_encode_utf8_replace", S, BytesS)
+QP = z3.Function("quopri_decodestring", BytesS, BytesS)
+QP_OK = z3.Function("quopri_decodestring_returns", BytesS, z3.BoolSort())
+B64 = z3.Function("base64_b64decode", BytesS, BytesS)
+B64_OK = z3.Function("base64_b64decode_returns", BytesS, z3.BoolSort())
+B64WS = z3.Function("bytes_without_whitespace", BytesS, BytesS)          # <whitespace regex>.sub(b"", x)
+BLOWER = z3.Function("bytes_lower", BytesS, BytesS)
+BHEAD = z3.Function("bytes_head", BytesS, z3.IntSort(), BytesS)          # x[:k]
 BODY = z3.Function("msg_body", MsgS, S)
 BODY_NONE = z3.Function("msg_body_is_none", MsgS, z3.BoolSort())
 
@@ -269,6 +293,131 @@ def install(reg):
     reg.ext_models[("new", "EmailContent")] = new_record("EmailContent")
     reg.method_models[("EpubCtx", "read_text")] = m_read_text
     reg.method_models[("EpubCtx", "exists")] = lambda ex, st, o, a, k, n: [(st, VBool(z3.Bool(fresh_name("exists"))))]
+    try:
+        install_mime(reg)
+    except Exception:  # noqa
+        pass
+
+
+# ---- round 7: email.message.Message as an abstract MIME view (ASSUMED: every method is a total function of the message) ----
+def _is_mime(v):
+    return isinstance(v, VExt) and v.sort == "MimeMsg"
+
+
+def m_mime_walk(ex, st, o, a, k, n):
+    st.assume(NPARTS(o.t) >= 0)
+    return [(st, VSeq(NPARTS(o.t), lambda i, m=o.t: VExt("MimeMsg", PART(m, i)), ("ext", "MimeMsg"), tag=("mime_walk", o.t)))]
+
+
+def m_mime_get_payload(ex, st, o, a, k, n):
+    d = k.get("decode", a[1] if len(a) > 1 else None)
+    if (a and not isinstance(a[0], VNoneT)) or (d is not None and not (isinstance(d, VBool) and z3.is_false(z3.simplify(d.t)))):
+        ex.exc_any(st.fork(), f"{ex.loc(n)} get_payload with an index / decode=True")
+        return [(st, VUnk("payload"))]
+    kd = PKIND(o.t)
+    out = []
+    for cond, v in ((kd == 0, VExt("Bytes", PBYTES(o.t))), (kd == 1, VStr(PSTR(o.t))), (z3.And(kd != 0, kd != 1), NONE)):
+        s2 = st.fork().assume(cond)
+        if ex.feasible(s2.pc):
+            out.append((s2, v))
+    return out
+
+
+def m_mime_get(ex, st, o, a, k, n):
+    """part.get(name, ""): the header value as a str -- or, for a value with non-ASCII bytes, an `email.header.Header` OBJECT
+    (compat32 policy; validated natively: `message_from_bytes(b"X: 8bit\\xe9\\n\\n").get("X")`), which is not a str."""
+    if len(a) == 2 and isinstance(a[0], VStr) and isinstance(a[1], VStr) and a[1].const() == "" and not k:
+        out = []
+        for cond, v in ((HDR_IS_STR(o.t, a[0].t), VStr(HDR(o.t, a[0].t))), (z3.Not(HDR_IS_STR(o.t, a[0].t)), VExt("HeaderObj", HOBJ(o.t, a[0].t)))):
+            s2 = st.fork().assume(cond)
+            if ex.feasible(s2.pc):
+                out.append((s2, v))
+        return out
+    return [(st, VUnk("header"))]
+
+
+def m_header_obj_str_method(ex, st, o, a, k, n):
+    ex.raise_in(st, ex.mk_exc("AttributeError"))          # a Header object has none of the str methods
+    return []
+
+
+def m_str_encode(ex, st, args, kwargs, node):
+    s, rest = args[0], args[1:]
+    enc = rest[0] if rest else kwargs.get("encoding")
+    err = rest[1] if len(rest) > 1 else kwargs.get("errors")
+    if isinstance(s, VStr) and isinstance(enc, VStr) and enc.const() in ("utf-8", "utf8", "UTF-8") and isinstance(err, VStr) and err.const() == "replace":
+        return [(st, VExt("Bytes", ENC(s.t)))]             # total: errors="replace" never raises
+    ex.exc_any(st.fork(), f"{ex.loc(node)} str.encode")
+    return [(st, VExt("Bytes"))]
+
+
+def m_partial_decoder(fn, ok, what):
+    """quopri.decodestring / base64.b64decode: a partial function of the bytes -- returns fn(b) when ok(b), raises otherwise."""
+    def f(ex, st, args, kwargs, node):
+        if len(args) == 1 and not kwargs and isinstance(args[0], VExt) and args[0].sort == "Bytes":
+            b = args[0].t
+            bad = st.fork().assume(z3.Not(ok(b)))
+            if ex.feasible(bad.pc):
+                ex.raise_in(bad, ex.mk_exc("ValueError"))       # binascii.Error is a ValueError; a modelled outcome, not an unknown call
+            st.assume(ok(b))
+            return [(st, VExt("Bytes", fn(b)))] if ex.feasible(st.pc) else []
+        ex.exc_any(st.fork(), f"{ex.loc(node)} {what}")
+        return [(st, VExt("Bytes"))]
+    return f
+
+
+def m_ws_sub(ex, st, o, a, k, n):
+    from pyvc.values import VBytes
+    if len(a) == 2 and not k and isinstance(a[0], VBytes) and not a[0].items and isinstance(a[1], VExt) and a[1].sort == "Bytes":
+        return [(st, VExt("Bytes", B64WS(a[1].t)))]
+    ex.exc_any(st.fork(), f"{ex.loc(n)} regex sub")
+    return [(st, VExt("Bytes"))]
+
+
+def base64_ws_regex_name(repo=None):
+    """The module-level regex `_decode_content` uses as `<name>.sub(b"", x)` (found by role: a rename re-verifies)."""
+    try:
+        from pyvc import loader
+        mod = loader.module(MHTML, repo)
+        fn = mod.functions.get("_decode_content")
+        names = set()
+        for x in ast.walk(fn) if fn is not None else ():
+            if isinstance(x, ast.Call) and isinstance(x.func, ast.Attribute) and x.func.attr == "sub" and isinstance(x.func.value, ast.Name) \
+                    and len(x.args) == 2 and isinstance(x.args[0], ast.Constant) and x.args[0].value == b"":
+                names.add(x.func.value.id)
+        if len(names) != 1:
+            return None
+        name = names.pop()
+        for x in mod.tree.body:
+            if isinstance(x, ast.Assign) and len(x.targets) == 1 and isinstance(x.targets[0], ast.Name) and x.targets[0].id == name \
+                    and isinstance(x.value, ast.Call) and ast.unparse(x.value.func) in ("re.compile", "compile") and x.value.args \
+                    and isinstance(x.value.args[0], ast.Constant) and isinstance(x.value.args[0].value, bytes):
+                import re as _re
+                pat = _re.compile(x.value.args[0].value)
+                # it must remove whitespace only: every run of whitespace matches completely, nothing else does
+                if pat.sub(b"", b" a\r\n\tb \n") == b"ab" and pat.sub(b"", b"QUJD+/=09") == b"QUJD+/=09":
+                    return name
+    except Exception:  # noqa
+        pass
+    return None
+
+
+def install_mime(reg):
+    reg.method_models[("MimeMsg", "get_content_type")] = lambda ex, st, o, a, k, n: [(st, VStr(CT(o.t)))]
+    reg.method_models[("MimeMsg", "is_multipart")] = lambda ex, st, o, a, k, n: [(st, VBool(MULTI(o.t)))]
+    reg.method_models[("MimeMsg", "walk")] = m_mime_walk
+    reg.method_models[("MimeMsg", "get_payload")] = m_mime_get_payload
+    reg.method_models[("MimeMsg", "get")] = m_mime_get
+    for nm in ("lower", "upper", "strip", "casefold", "startswith", "endswith", "split"):
+        reg.method_models[("HeaderObj", nm)] = m_header_obj_str_method
+    reg.method_models[("Bytes", "lower")] = lambda ex, st, o, a, k, n: [(st, VExt("Bytes", BLOWER(o.t)))]
+    reg.ext_models["str.encode"] = m_str_encode
+    reg.ext_models["quopri.decodestring"] = m_partial_decoder(QP, QP_OK, "quopri.decodestring")
+    reg.ext_models["base64.b64decode"] = m_partial_decoder(B64, B64_OK, "base64.b64decode")
+    nm = base64_ws_regex_name()
+    if nm is not None:
+        reg.module_consts[(MHTML, nm)] = VExt("WsRe")
+        reg.method_models[("WsRe", "sub")] = m_ws_sub
 
 
 def m_message_from_bytes(ex, st, args, kwargs, node):
@@ -479,6 +628,97 @@ def contracts():
         target=f"{MHTML}::_extract_from_mhtml", params=[("content", P_UNK)], assumed=True,
         returns=lambda c: [(z3.Bool(fresh_name("no_html_part")), NONE), (z3.BoolVal(True), mh_part(c.ex, c.st, c))],
         note="ASSUMED (MIME decoding is not C17's subject): the HTML part of the archive, or None",
+    ))
+
+    # -- round 7: mhtml._find_html_part and mhtml._decode_content VERIFIED over the abstract MIME view ------------------------
+    # What C17 needs from them ("takes nothing else with it"): the document handed to the parser is the COMPLETE decoded html
+    # part -- the first text/html part in walk order, never a slice / lower-cased probe of it, never missed when there is one.
+    HTML_CT = z3.StringVal("text/html")
+    P_MIME = Maker(lambda ex, st, name: VExt("MimeMsg", z3.Const(name, MimeS)), desc="email.message.Message (abstract MIME view)")
+
+    def fhp_result(c):
+        if not verifying(c):
+            return z3.BoolVal(True)
+        m, r = c.args["msg"].t, c.result
+        n = NPARTS(m)
+        j = z3.Int(fresh_name("jpart"))
+        none_before = lambda k: z3.Implies(z3.And(j >= 0, j < k), CT(PART(m, j)) != HTML_CT)      # j fresh: for all j
+        if isinstance(r, VNoneT):
+            return z3.And(CT(m) != HTML_CT, z3.Implies(MULTI(m), none_before(n)))
+        if isinstance(r, VExt) and r.sort == "Bytes" and z3.is_app(r.t) and r.t.decl().eq(DEC):
+            x = r.t.arg(0)
+            if x.eq(m):
+                return z3.Or(CT(m) == HTML_CT, z3.And(z3.Not(MULTI(m)), z3.Implies(MULTI(m), none_before(n))))
+            if z3.is_app(x) and x.decl().eq(PART) and x.arg(0).eq(m):
+                k = x.arg(1)
+                return z3.And(CT(m) != HTML_CT, MULTI(m), k >= 0, k < n, CT(PART(m, k)) == HTML_CT, none_before(k))
+        return z3.BoolVal(False)          # anything else (a slice, a lower-cased copy, another value) is not the part
+
+    def fhp_inv(lc, jq):
+        m = lc.entry.lookup("msg")
+        if not _is_mime(m):
+            raise Unsupported("loop over something else than the parts of `msg`")
+        tg = getattr(lc.seq, "tag", None)
+        if not (isinstance(tg, tuple) and tg and tg[0] == "mime_walk" and tg[1].eq(m.t)):
+            raise Unsupported("loop over something else than msg.walk()")
+        return z3.Implies(z3.And(jq >= 0, jq < lc.i), CT(PART(m.t, jq)) != HTML_CT)
+    fhp = FnContract(
+        target=f"{MHTML}::_find_html_part", params=[("msg", P_MIME)],
+        ensures=[("result-is-the-complete-decoded-first-text/html-part-(None-only-when-there-is-none)", fhp_result)],
+        raises=[Raises("Exception", sub=True, label="only what _decode_content raises on the part it is given (that callee's own obligation)",
+                       when=lambda c: z3.Or([p_ for p_ in c.st.pc if z3.is_app(p_) and p_.decl().eq(DEC_RAISES)] + [z3.BoolVal(False)]))],
+        total=True,
+        note="VERIFIED (round 7) over the abstract MIME view; the ASSUMED registration below is the call-site view of _extract_from_mhtml: "
+             "the verified clause makes the result a function of the message (MIME_HAS / MIMEPART are definable from it), which is all it states",
+    )
+    try:
+        from pyvc import loader as _loader
+        fn = _loader.module(MHTML).functions.get("_find_html_part")
+        fors = [x for x in ast.walk(fn) if isinstance(x, ast.For)] if fn is not None else []
+        for k in range(len(fors)):
+            fhp.loops[k] = LoopSpec(inv_point=fhp_inv, label=f"no-html-part-before-index-i#{k}")
+    except Exception:  # noqa
+        pass
+    out.append(fhp)
+    # the ASSUMED call-site view registered above must stay the LAST registration of the target (call sites use the last one)
+    for old in [x for x in out if x.target == fhp.target and x.assumed]:
+        out.remove(old)
+        out.append(old)
+
+    def dc_result(c):
+        if not verifying(c):
+            return z3.BoolVal(True)
+        from contracts.C17 import LOWER
+        from pyvc.values import VBytes
+        m, r = c.args["part"].t, c.result
+        pb = ENC(PSTR(m))
+        cte = z3.StringVal("Content-Transfer-Encoding")
+        enc = LOWER(z3.If(HDR_IS_STR(m, cte), HDR(m, cte), HTEXT(HOBJ(m, cte))))
+        qp, b64 = enc == z3.StringVal("quoted-printable"), enc == z3.StringVal("base64")
+        kd = PKIND(m)
+        if isinstance(r, VBytes) and not r.items:
+            return z3.And(kd != 0, kd != 1)
+        if isinstance(r, VExt) and r.sort == "Bytes":
+            t = r.t
+            ws = B64WS(pb)
+            return z3.Or(z3.And(kd == 0, t == PBYTES(m)),
+                         z3.And(kd == 1, qp, z3.If(QP_OK(pb), t == QP(pb), t == pb)),
+                         z3.And(kd == 1, z3.Not(qp), b64, z3.If(B64_OK(ws), t == B64(ws), t == pb)),
+                         z3.And(kd == 1, z3.Not(qp), z3.Not(b64), t == pb))
+        return z3.BoolVal(False)
+    out.append(FnContract(
+        target=f"{MHTML}::_decode_content", params=[("part", P_MIME)],
+        ensures=[("the-complete-payload-decoded-by-its-transfer-encoding-(undecodable:-the-payload-itself,-never-a-part-of-it)", dc_result)],
+        total=True,
+        note="VERIFIED (round 7): bytes payload unchanged; str payload utf-8 encoded then quoted-printable / base64 decoded as the header says",
+    ))
+    out.append(FnContract(
+        target=f"{MHTML}::_decode_content", params=[("part", P_UNK)], assumed=True,
+        returns=lambda c: VExt("Bytes", DEC(c.args["part"].t)) if _is_mime(c.args.get("part")) else VExt("Bytes"),
+        raises=[Raises("Exception", sub=True, when=lambda c: DEC_RAISES(c.args["part"].t) if _is_mime(c.args.get("part")) else z3.BoolVal(True),
+                       label="whatever the real body raises: its own `raises` obligation (verified registration) says never")],
+        note="call-site view of the verified contract above: a function of the part (DEC abbreviates the verified case analysis; DEC_RAISES is "
+             "uninterpreted: that it is false is the verified registration's `raises` obligation, refuted on the library HEAD -- recorded finding)",
     ))
 
     def mh_calls(c):
